@@ -904,8 +904,7 @@ func c27Run(cfg *c27Config, viol func(key, detail string)) *c27Result {
 	// let every connection loop finish (their last writes add delivery goroutines) before
 	// waiting for the delivery goroutines
 	synctest.Wait()
-	net.stopMu.Do(func() { close(net.stop) })
-	net.wg.Wait()
+	net.vlpStop()
 	close(sink)
 	altPC.Close()
 	synctest.Wait()
